@@ -9,6 +9,9 @@ reads through the adapter, the fd's one-shot registration in the poller, and a p
   `waiting` 1 while the task is parked with its waker stored in the dispatcher
   `wantArm` 1 between the task's WouldBlock and its `register_waker` (the MOD re-evaluates readiness)
   `woken`   1 while the task has been woken and not yet run
+  `stale`   1 while the waker stored in the dispatcher is not the one the task is (or is about to be) parked
+            with: an operation may be polled under one waker and, before the fd is ready, again under another
+            (a `now_or_never` probe, a `select!` arm, a hand-over between tasks) — the *last* one must be woken
 Ghosts: `sent` bytes the peer wrote, `got` bytes the task read, `nonblock` / `wasNonblock` / `alive`.
 Kernel rules as in `Verif.Kernel`: MOD queues the entry if the fd is ready; a write to an armed
 fd queues it; a reported one-shot entry is disarmed.  Numbers only (linear arithmetic).
@@ -22,6 +25,7 @@ structure St where
   waiting : Nat := 0
   wantArm : Nat := 0
   woken : Nat := 1          -- the task is scheduled initially
+  stale : Nat := 0
   sent : Nat := 0
   got : Nat := 0
   alive : Nat := 1          -- the adapter exists
@@ -33,6 +37,7 @@ inductive Act
   | peerWrite (n : Nat)     -- the peer makes progress (n ≥ 1 bytes / frees n ≥ 1 bytes of room)
   | taskRead (k : Nat)      -- the running task reads up to k ≥ 1 bytes and gets some
   | taskBlock               -- the running task's read says WouldBlock
+  | probeArm                -- the operation is polled under a throw-away waker first: `register_waker(other)`
   | taskArm                 -- `register_waker`: store the waker, MOD the registration (one-shot, its interest)
   | loopReport              -- the poller reports the registration; `process_events` wakes the stored waker
   | taskRun                 -- the executor runs the woken task
@@ -50,20 +55,29 @@ def step (s : St) : Act → Option St
     else none
   | .taskBlock =>
     if s.alive = 1 ∧ s.waiting = 0 ∧ s.woken = 0 ∧ s.wantArm = 0 ∧ s.avail = 0 then some { s with wantArm := 1 } else none
-  | .taskArm =>
+  | .probeArm =>
+    -- the waker stored is not the task's; the task goes on to poll again under its own waker
     if s.alive = 1 ∧ s.wantArm = 1 then
-      some { s with wantArm := 0, waiting := 1, armed := 1, queued := (if s.avail ≥ 1 then 1 else s.queued) }
+      some { s with armed := 1, stale := 1, queued := (if s.avail ≥ 1 then 1 else s.queued) }
+    else none
+  | .taskArm =>
+    -- `disp.waker = Some(waker)` replaces whatever waker was stored
+    if s.alive = 1 ∧ s.wantArm = 1 then
+      some { s with wantArm := 0, waiting := 1, armed := 1, stale := 0, queued := (if s.avail ≥ 1 then 1 else s.queued) }
     else none
   | .loopReport =>
     if s.alive = 1 ∧ s.queued = 1 then
       if s.armed = 1 ∧ s.avail ≥ 1 then
-        some { s with queued := 0, armed := 0, woken := (if s.waiting = 1 then 1 else s.woken), waiting := 0 }
+        -- `process_events` takes the stored waker and wakes it: the task only if that waker is its own
+        some { s with queued := 0, armed := 0, stale := 0,
+                      woken := (if s.waiting = 1 ∧ s.stale = 0 then 1 else s.woken),
+                      waiting := (if s.stale = 0 then 0 else s.waiting) }
       else some { s with queued := 0 }
     else none
   | .taskRun => if s.alive = 1 ∧ s.woken = 1 then some { s with woken := 0 } else none
   | .dropAdapter =>
     if s.alive = 1 then
-      some { s with alive := 0, armed := 0, queued := 0, waiting := 0, woken := 0, wantArm := 0, nonblock := s.wasNonblock }
+      some { s with alive := 0, armed := 0, queued := 0, waiting := 0, woken := 0, wantArm := 0, stale := 0, nonblock := s.wasNonblock }
     else none
 
 inductive Reach (was : Nat) : St → Prop
